@@ -281,7 +281,20 @@ def l1(model: Model, rep: Report):
             if fname == "get_branch_iterator":
                 src_ok = lp.term == ("attr", gs, "_cached_branch_iterator")
             elif cname == "GraphBranch":
-                src_ok = lp.term == ("call", ("attr", gs, "get_branch_iterator"), (), ())
+                layers = ("call", ("attr", gs, "get_branch_iterator"), (), ())
+                src_ok = lp.term == layers
+                # flat-map reading: ``for node in chain.from_iterable(layers)`` / ``for node in (n for layer in layers for n in layer)``
+                from .common import devar as _devar
+                lt = _devar(lp.term)
+                flat = (lt[0] == "comp" and len(lt[3]) == 2 and lt[3][0] == (layers, ()) and not lt[3][1][1] and lt[3][1][0][0] == "bound"
+                        and lt[3][1][0][3] == show(layers) and lt[2][0] == "bound" and lt[2][3] == show(lt[3][1][0]))
+                if flat:
+                    el = ("bound", "for", lp.node.lineno, show(lp.term))
+                    for bp in lp.extra["paths"]:
+                        ys_ = [e for e in bp.events if e.kind == "yield"]
+                        if len(ys_) != 1 or ys_[0].term != el or atoms_of(bp.cond):
+                            problems.append("a node of a layer is not yielded unconditionally")
+                    continue
             else:
                 src_ok = lp.term == ("call", ("fn", "GraphBranch.get_node_iterator"), (gs,), ())
             if not src_ok:
@@ -334,11 +347,12 @@ def l2(model: Model, rep: Report):
         ek, hk = eq_kind(C), hash_kind(C)
         flds = C.all_fields()
         ids = []
+        from .common import factory_counter
         for n, fi in flds.items():
-            if fi.compare and fi.default_factory is not None and isinstance(fi.default_factory, ast.Lambda):
-                body = fi.default_factory.body
-                if isinstance(body, ast.Attribute) and isinstance(body.value, ast.Name):
-                    ids.append((n, body.value.id, body.attr, fi))
+            if fi.compare and fi.default_factory is not None:
+                fc = factory_counter(model, fi.owner.module, fi.default_factory)
+                if fc is not None:
+                    ids.append((n, fc[0], fc[1], fi))
         if ek == "identity":
             rep.ok("C02.L2", f"{C.name}[eq]", C.loc, found="identity equality", required="distinct nodes unequal")
         else:
